@@ -130,3 +130,27 @@ void bad_mil_compact__half__pp_map_sim_weilp_k99(fp12_t r, const ep_t *p, const 
 	}
 	bn_free(a);
 }
+
+/* the G1 operand is copied, not normalised */
+void bad_mil_norm__copy__pp_map_sim_oatep_k98(fp12_t r, const ep_t *p, const ep2_t *q, int m) {
+	ep_t *_p = RLC_ALLOCA(ep_t, m);
+	ep2_t *t = RLC_ALLOCA(ep2_t, m), *_q = RLC_ALLOCA(ep2_t, m);
+	bn_t a;
+	int i, j;
+
+	bn_null(a);
+	bn_new(a);
+	j = 0;
+	for (i = 0; i < m; i++) {
+		if (!ep_is_infty(p[i]) && !ep2_is_infty(q[i])) {
+			ep_copy(_p[j], p[i]);
+			ep2_norm(_q[j++], q[i]);
+		}
+	}
+	fp12_set_dig(r, 1);
+	if (j > 0) {
+		pp_mil_k99(r, t, _q, _p, j, a);
+		pp_exp_k12(r, r);
+	}
+	bn_free(a);
+}
